@@ -23,12 +23,19 @@ else:
         print('patch does not apply:', r.stderr); sys.exit(3)
 res = {}
 try:
-    for p in props:
+    def one(p):
         c = subprocess.run([os.path.join(V, 'check'), p, '--no-write'], capture_output=True, text=True, cwd=V, env=env)
         lines = [l for l in c.stdout.splitlines() if l.startswith('  C') or l.startswith('CHECK-ERROR')]
-        res[p] = (c.returncode, lines)
-        if c.returncode != 0:
-            print('%s rc=%d' % (p, c.returncode))
+        return p, c.returncode, lines
+    # the first check exports the facts of this tree; the others only read them and run side by side
+    from concurrent.futures import ThreadPoolExecutor
+    first = [one(props[0])]
+    with ThreadPoolExecutor(max_workers=int(os.environ.get('SEEDCHECK_JOBS', '8'))) as ex:
+        rest = list(ex.map(one, props[1:]))
+    for p, rc, lines in first + rest:
+        res[p] = (rc, lines)
+        if rc != 0:
+            print('%s rc=%d' % (p, rc))
             for l in lines[:6]:
                 print('   ' + l[:300])
 finally:
